@@ -14,7 +14,7 @@ META = {
     'assumptions': ['mask enumeration is exhaustive per flag set; flag sets and switch statements are sampled'],
     'floors': {'recovery_roundtrips': 200, 'recovered_switches': 30, 'layered_flag_sets': 3, 'masks_checked': 256 * 6, 'flag_sets': 6, 'end_to_end_masks': 256 * 3, 'switch_statements': 150, 'switch_difficulties_checked': 1000},
 }
-SIZES = {'quick': 2000, 'thorough': 40000}
+SIZES = {'quick': 4000, 'thorough': 40000}
 LANG = {'kind': 'test', 'language': 'ecl', 'int_regs': [], 'float_regs': [], 'game': 'th07'}
 
 SHIPPED = {'th06': 'E-N-H-L-4-5-6-7-', 'th08': 'E-N-H-L-4+F+U+7+'}
